@@ -176,6 +176,29 @@ func genC08(e *emitter, tier string) {
 		}
 		e.emit(opCase("expand-special", "Expand", nil, []*TJ{data(s), idxT("i64", []int{}, []int{2})}, nil))
 	}
+	// --- Gather: every index list of length 1..3 (repeats, gaps, any order, negative spellings) on an axis of
+	// extent 4, and all 2x2 index tensors over a sample
+	for _, ds := range []struct {
+		s  []int
+		ax int
+	}{{[]int{4}, 0}, {[]int{4, 2}, 0}, {[]int{2, 4}, 1}, {[]int{2, 4}, -1}} {
+		x := seqT("f32", ds.s, func(i int) float64 { return float64(i + 1) })
+		vals4 := rangeInts(-4, 3)
+		for _, l := range intLists(vals4, 3) {
+			if len(l) == 0 {
+				continue
+			}
+			if tier != "thorough" && len(l) == 3 && len(ds.s) == 2 && (l[0]+2*l[1]+3*l[2]+ds.ax)%4 != 0 {
+				continue
+			}
+			e.emit(opCase("gather-index-lists", "Gather", []Attr{{Name: "axis", Type: "i", I: int64(ds.ax)}}, []*TJ{x, idxT([]string{"i64", "i32"}[(len(l)+l[0]+8)%2], []int{len(l)}, l)}, nil))
+		}
+		for a := -4; a <= 3; a++ {
+			for b := -4; b <= 3; b += 3 {
+				e.emit(opCase("gather-index-lists", "Gather", []Attr{{Name: "axis", Type: "i", I: int64(ds.ax)}}, []*TJ{x, idxT("i64", []int{2, 2}, []int{a, b, b, a + (3-a)%2})}, nil))
+			}
+		}
+	}
 	// --- Concat: 1..4 inputs, every axis, equal and unequal off-axis shapes, negative axis, mixed dtypes
 	base := allShapes(3, 2)
 	for _, s := range base {
